@@ -171,24 +171,26 @@ impl Iterator for StyledScanlines {
 
     fn next(&mut self) -> Option<Self::Item> {
         self.scanlines.next().map(|scanline| {
-            if self.fill_area.rows.contains(&scanline.y) {
+            let fill_range = if self.fill_area.rows.contains(&scanline.y) {
                 let fill_start = scanline
                     .x
                     .clone()
-                    .find(|x| self.fill_area.contains(Point::new(*x, scanline.y)))
-                    .unwrap_or(scanline.x.start);
+                    .find(|x| self.fill_area.contains(Point::new(*x, scanline.y)));
 
                 let fill_end = scanline
                     .x
                     .clone()
                     .rfind(|x| self.fill_area.contains(Point::new(*x, scanline.y)))
-                    .map(|x| x + 1)
-                    .unwrap_or(scanline.x.end);
+                    .map(|x| x + 1);
 
-                StyledScanline::new(scanline.y, scanline.x, Some(fill_start..fill_end))
+                // The scanline has no fill region if it doesn't contain any point inside the
+                // fill area, e.g. if the width of the fill area is zero.
+                fill_start.zip(fill_end).map(|(start, end)| start..end)
             } else {
-                StyledScanline::new(scanline.y, scanline.x, None)
-            }
+                None
+            };
+
+            StyledScanline::new(scanline.y, scanline.x, fill_range)
         })
     }
 }
